@@ -278,9 +278,11 @@ def emitModSib (c : Ctx) (pre : List Byte) (aoMark : Nat) (opcode options opReg 
         let rel := m.offLo32
         if (rmInfo &&& kX86MemInfo_BaseLabel) != 0#32 then
           -- label bound at position m.baseId of the current section: rel_offset -= 4 + imm_size; += label - cursor
+          -- (repaired code, fixes/C01-4.patch) computed in 64 bits and range-checked
           let cursor := c.off + pre.length + 1
-          let rel' := rel - BitVec.ofNat 32 (4 + immSize) + (BitVec.ofNat 32 m.baseId - BitVec.ofNat 32 cursor)
-          done (pre ++ [(encodeMod 0#32 opReg 5#32).truncate 8] ++ le32 rel')
+          let rel64 : BitVec 64 := rel.signExtend 64 - BitVec.ofNat 64 (4 + immSize) + (BitVec.ofNat 64 m.baseId - BitVec.ofNat 64 cursor)
+          if !isInt32of64 rel64 then .error .invalidDisplacement else
+          done (pre ++ [(encodeMod 0#32 opReg 5#32).truncate 8] ++ le32 (rel64.truncate 32))
         else
           done (pre ++ [(encodeMod 0#32 opReg 5#32).truncate 8] ++ le32 rel)
   else if vsibEntry || (rmInfo &&& kX86MemInfo_67H_X86) == 0#32 then
@@ -316,8 +318,10 @@ def emitModSib (c : Ctx) (pre : List Byte) (aoMark : Nat) (opcode options opReg 
       | .error e => .error e
       | .ok mod =>
         if mod == 0xFF#32 then .error .invalidAddress else
+        -- (repaired code, fixes/C01-3.patch) [BP] has no displacement-less form: test before merging the reg field
+        let isBpOnly := mod == 0x06#32
         let mod := mod + (opReg <<< 3)
-        if rel == 0#32 && mod != 0x06#32 then done (pre ++ [mod.truncate 8])
+        if rel == 0#32 && !isBpOnly then done (pre ++ [mod.truncate 8])
         else if isInt8 rel then done (pre ++ [(mod + 0x40#32).truncate 8, rel.truncate 8])
         else done (pre ++ [(mod + 0x80#32).truncate 8] ++ le16 rel)
     else
